@@ -69,6 +69,10 @@ class EventClassValue:
 EVENT_CLASS = EventClassValue()
 
 
+class SuperProxy:
+    """super() inside an exception class __init__: base initialisation is a no-op here"""
+
+
 class Coro:
     """un-awaited call of an async function (lazy)"""
 
@@ -312,6 +316,8 @@ class CallsMixin:
                         return Coro(lambda: self.run_function(node, mi, qn, call_args, kwargs), qn)
                     return self.run_function(node, mi, qn, call_args, kwargs)
             raise Unsupported(f"method {qn_cls}.{name} has neither contract, model nor source at {fr.where()}")
+        if isinstance(obj, SuperProxy):
+            return None
         return self.call_value_method(obj, name, args, kwargs, fr)
 
     def find_method_contract(self, cls, name):
@@ -354,6 +360,13 @@ class CallsMixin:
                 self.register_shared(obj)
                 self.apply_contract(fc, [obj] + list(args), kwargs, fr)
             else:
+                cc = self.reg.classes.get(f"{cls.__module__}:{cls.__qualname__}")
+                if cc is not None:
+                    # ghost state starts at its initial value (False / 0)
+                    for g, t in cc.ghost.items():
+                        obj.fields[g] = False if t == "bool" else 0
+                    obj.tag = self.ctx.fresh_name(cls.__name__.lower())
+                    self.register_shared(obj)
                 md = method_def(cls, "__init__")
                 if md is not None:
                     mi, node, owner = md
@@ -442,6 +455,7 @@ class CallsMixin:
             set: lambda a, k, fr: PSet(self.iter_concrete(a[0], fr)) if a else PSet([]),
             type: self.b_type,
             getattr: self.b_getattr,
+            super: lambda a, k, fr: SuperProxy(),
         }
         for k, v in self.extra_builtins().items():
             t[k] = v
@@ -954,6 +968,9 @@ class CallsMixin:
                     return getattr(s, name)(*args, **kwargs)
                 except Exception as ex:
                     raise mk_exc(type(ex), str(ex), where=fr.where())
+            if fr.spec:
+                # total in contracts: the transcoding of an ascii/latin-1 string is itself
+                return mk_str(e, newkind)
             if enc in ("latin1", "iso88591"):
                 if name == "encode":
                     ok = z3.Bool(ctx.fresh_name("latin1_ok"))
@@ -988,12 +1005,12 @@ class CallsMixin:
             sep = str_to_z3(args[0])
             idx = z3.IndexOf(e, sep, 0)
             n = z3.Length(e)
-            if ctx.branch(idx >= 0, "partition found"):
-                head = mk_str(z3.SubString(e, 0, idx), kind)
-                tail = mk_str(z3.SubString(e, idx + z3.Length(sep), n), kind)
-                return (head, args[0], tail)
-            empty = "" if kind == "str" else b""
-            return (s, empty, empty)
+            found = idx >= 0
+            emp = z3.StringVal("")
+            head = mk_str(z3.If(found, z3.SubString(e, 0, idx), e), kind)
+            mid = mk_str(z3.If(found, sep, emp), kind)
+            tail = mk_str(z3.If(found, z3.SubString(e, idx + z3.Length(sep), n), emp), kind)
+            return (head, mid, tail)
         if name == "split":
             sq = SymSeq(ctx.fresh("split", StrSeq), "str" if kind == "str" else "bstr")
             ctx.assume(z3.Length(sq.e) >= 1)
